@@ -56,8 +56,14 @@ def canon(lines):
     out = []
     region = None
     for l in lines:
+        if l.startswith('{"e":"boom"'):
+            # a panic of user code caught outside run(): what the abandoned queues do with the closures
+            # they still hold differs by implementation (the flat queue forgets them, the boxed one drops
+            # them) and is not part of the feature-equivalence claim; compared up to the panic only
+            out.append(l)
+            break
         if region is not None:
-            if l.startswith('{"e":"end"'):
+            if l.startswith('{"e":"end"') or l.startswith('{"e":"renewed"'):
                 # Not compared as a sequence: see above (with the inline Deferrer such closures can also
                 # form a reference cycle and never be released, which the documentation allows).  What is
                 # compared is, per actor, the order of its own release events (value drop vs notifier),
@@ -71,7 +77,7 @@ def canon(lines):
                         except Exception:
                             pass
                 out.append("REGION " + json.dumps(per, sort_keys=True))
-                out.append('{"e":"end"}')
+                out.append('{"e":"end"}' if l.startswith('{"e":"end"') else l)
                 region = None
             else:
                 region.append(l)
@@ -82,6 +88,23 @@ def canon(lines):
     if region:
         out += sorted(region)
     return out
+
+
+def per_case_canon(tpath):
+    """case index -> canonical event list of that case"""
+    per, cur = {}, None
+    for l in open(tpath).read().splitlines():
+        if l.startswith('{"e":"case"'):
+            try:
+                cur = json.loads(l)["idx"]
+            except Exception:
+                cur = None
+            per[cur] = []
+            continue
+        if l.startswith('{"e":"restart"') or cur is None:
+            continue
+        per[cur].append(norm(l))
+    return {k: canon(v) for k, v in per.items() if k is not None}
 
 
 def run(tier, seed, replay=None):
@@ -121,8 +144,8 @@ def run(tier, seed, replay=None):
         default_like = not any(f in combo for f in ("inline-deferrer", "multi-stakker", "multi-thread", "no-unsafe"))
         rl = run_list if default_like else [dict(c, noflushcheck=True) for c in run_list]
         cpath, tpath, verdict = seqcheck.run_cases(binary, rl, tag)
-        lines = canon([norm(l) for l in open(tpath).read().splitlines()])
-        nev += len(lines)
+        lines = per_case_canon(tpath)
+        nev += sum(len(v) for v in lines.values())
         bad = [v for v in verdict["violations"] if v["prop"] == "HARNESS"]
         if bad:
             raise common.ToolError("harness-level failure on build [%s]: %s" % (combo, bad[0]["why"]))
@@ -142,29 +165,35 @@ def run(tier, seed, replay=None):
         if ref_lines is None:
             ref_lines, ref_name = lines, combo
             continue
-        # first divergence from the reference build
-        n = min(len(lines), len(ref_lines))
-        div = None
-        for i in range(n):
-            if lines[i] != ref_lines[i]:
-                if lines[i].startswith("REGION ") and ref_lines[i].startswith("REGION "):
-                    pa, pb = json.loads(lines[i][7:]), json.loads(ref_lines[i][7:])
-                    if all(pa[k] == pb[k] for k in pa if k in pb):
-                        continue
-                div = i
-                break
-        if div is None and len(lines) != len(ref_lines):
-            div = n
-        if div is not None:
-            idx, name = common.case_of_line(tpath, div + 1)
-            case = run_list[idx] if idx is not None and idx < len(run_list) else {}
+        # first divergence from the reference build, case by case
+        ndiv = 0
+        for idx in sorted(set(lines) | set(ref_lines)):
+            a, b = lines.get(idx, []), ref_lines.get(idx, [])
+            n = min(len(a), len(b))
+            div = None
+            for i in range(n):
+                if a[i] != b[i]:
+                    if a[i].startswith("REGION ") and b[i].startswith("REGION "):
+                        pa, pb = json.loads(a[i][7:]), json.loads(b[i][7:])
+                        if all(pa[k] == pb[k] for k in pa if k in pb):
+                            continue
+                    div = i
+                    break
+            if div is None and len(a) != len(b):
+                div = n
+            if div is None:
+                continue
+            ndiv += 1
+            if ndiv > 3:
+                continue
+            case = run_list[idx] if idx < len(run_list) else {}
             path = os.path.join(common.REPLAYS, "C18-s%d-%d.json" % (seed, len(viols)))
             common.ensure_dirs()
             json.dump({"property": prop, "why": "trace differs between feature builds", "features": combo, "ref": ref_name,
-                       "case": case, "ref_line": ref_lines[div] if div < len(ref_lines) else None,
-                       "line": lines[div] if div < len(lines) else None}, open(path, "w"))
-            viols.append({"why": "observable event sequence under features [%s] differs from [%s]: %s vs %s" % (
-                combo, ref_name, (lines[div] if div < len(lines) else "<end>")[:120], (ref_lines[div] if div < len(ref_lines) else "<end>")[:120]),
+                       "case": case, "ref_line": b[div] if div < len(b) else None,
+                       "line": a[div] if div < len(a) else None}, open(path, "w"))
+            viols.append({"why": "observable event sequence of case %s under features [%s] differs from [%s]: %s vs %s" % (
+                case.get("case"), combo, ref_name, (a[div] if div < len(a) else "<end>")[:120], (b[div] if div < len(b) else "<end>")[:120]),
                 "replay": path, "sig": combo})
     samples = [run_list[i] for i in range(0, len(run_list), max(1, len(run_list) // 3))][:3]
     coverage = {
